@@ -1,10 +1,182 @@
 /-
   C20 — optimistic concurrency control prevents lost updates.  Property theorems only.
+
+  The model (PonyVerif/Model/Occ.lean) mirrors `Attribute.__get__/__set__`, `Entity._db_set_`, `_save_updated_`,
+  `_update_dbvals_`, `_construct_optimistic_criteria_`, `SessionCache.flush/commit/rollback` and the SQLite provider's
+  transaction lock.  A schedule is an ARBITRARY list of (session, action) steps, one SQL statement per step, for any
+  number of sessions, objects and attributes; every theorem quantifies over all schedules (proofs by induction over the
+  schedule through the invariant `Inv`, PonyVerif/Lemmas/Occ.lean).
+
+  Ghost fields used to state the property: `obs a` = the value the application got from `obj.a` (a value that came from
+  the database: the session had not assigned `a` itself) or the value the session itself last wrote to the database for
+  `a`; `written a` = the application assigned `a` in this session.
 -/
-import PonyVerif.Model.Occ
+import PonyVerif.Lemmas.Occ
 namespace PonyVerif.Props.C20
 open PonyVerif.Model.Occ
 
-theorem C20_placeholder (cfg : Cfg) (σ : State) : run cfg σ [] = σ := rfl
+/-- the state after an arbitrary interleaving, started from any committed rows with no session open -/
+def after (cfg : Cfg) (store0 : Obj → Attr → Val) (sched : List (Sid × Action)) : State :=
+  run cfg (State.init cfg store0) sched
+
+theorem C20_invariant (cfg : Cfg) (store0 : Obj → Attr → Val) (sched : List (Sid × Action)) :
+    Inv cfg (after cfg store0 sched) :=
+  Inv_run cfg sched _ (Inv_init cfg store0)
+
+/-- **C20 (row seen by the writer).** Whenever, after any schedule, a step of optimistic session `s` applies an UPDATE
+    of object `o` that is not locked for update, then for EVERY attribute `a` of the entity that is not excluded from
+    optimistic checks and for which `s` holds an observation `v` (it read `v`, or wrote `v` itself), the row that the
+    UPDATE matched had `a = v`. -/
+theorem C20_view (cfg : Cfg) (store0 : Obj → Attr → Val) (sched : List (Sid × Action)) (s : Sid) (act : Action) (o : Obj)
+    (happ : (step cfg (after cfg store0 sched) s act).2.upd = some o)
+    (hopt : cfg.sessOpt s = true) (hfu : ((after cfg store0 sched).sess s).forUpd o = false)
+    (a : Attr) (v : Val) (ha : a ∈ cfg.attrs) (hao : cfg.attrOpt a = true)
+    (hobs : (((after cfg store0 sched).sess s).objs o).obs a = some v) :
+    view (after cfg store0 sched) s o a = v := by
+  have hinv := C20_invariant cfg store0 sched
+  have hwh := (step_applied cfg _ s act o happ).2
+  have hO := ((hinv.1 s).1 o a).2.2.2.1 v hobs
+  have := hwh a ha hopt hfu hO.2.1 hao
+  rw [hO.2.2] at this
+  exact (Option.some.inj this).symm
+
+/-- **C20 (the property as stated).** … and if `s` did not itself overwrite `a`, the COMMITTED value of `a` at the
+    moment of the update is the value `s` read. -/
+theorem C20 (cfg : Cfg) (store0 : Obj → Attr → Val) (sched : List (Sid × Action)) (s : Sid) (act : Action) (o : Obj)
+    (happ : (step cfg (after cfg store0 sched) s act).2.upd = some o)
+    (hopt : cfg.sessOpt s = true) (hfu : ((after cfg store0 sched).sess s).forUpd o = false)
+    (a : Attr) (v : Val) (ha : a ∈ cfg.attrs) (hao : cfg.attrOpt a = true)
+    (hobs : (((after cfg store0 sched).sess s).objs o).obs a = some v)
+    (hnw : (((after cfg store0 sched).sess s).objs o).written a = false) :
+    (after cfg store0 sched).store o a = v := by
+  have hv := C20_view cfg store0 sched s act o happ hopt hfu a v ha hao hobs
+  have hinv := C20_invariant cfg store0 sched
+  have hW := (hinv.1 s).2.2 o a
+  cases hl : lookupPend ((after cfg store0 sched).sess s).pend o a with
+  | none => simpa [view, hl] using hv
+  | some w => have := hW (by simp [hl]); simp [hnw] at this
+
+/-- an observation is what Pony's own bookkeeping holds: read bit set and `_dbvals_` equal to the observed value -/
+theorem C20_observation_is_tracked (cfg : Cfg) (store0 : Obj → Attr → Val) (sched : List (Sid × Action)) (s : Sid) (o : Obj)
+    (a : Attr) (v : Val) (hobs : (((after cfg store0 sched).sess s).objs o).obs a = some v) :
+    (((after cfg store0 sched).sess s).objs o).rbits a = true ∧ (((after cfg store0 sched).sess s).objs o).dbvals a = some v
+    ∧ cfg.volatile a = false :=
+  let h := ((C20_invariant cfg store0 sched).1 s).1 o a
+  ⟨(h.2.2.2.1 v hobs).2.1, (h.2.2.2.1 v hobs).2.2, (h.2.2.2.1 v hobs).1⟩
+
+/-- **C20_fail_commits_nothing.** A step that raises OptimisticCheckError / UnrepeatableReadError applies no UPDATE,
+    leaves the committed rows as they were, discards the whole session cache with all its uncommitted writes (rollback)
+    and releases the write lock. -/
+theorem C20_fail_commits_nothing (cfg : Cfg) (store0 : Obj → Attr → Val) (sched : List (Sid × Action)) (s : Sid) (act : Action)
+    (hfail : (step cfg (after cfg store0 sched) s act).2.res.failed = true) :
+    (step cfg (after cfg store0 sched) s act).1.store = (after cfg store0 sched).store
+    ∧ (step cfg (after cfg store0 sched) s act).1.sess s = Sess.fresh cfg s
+    ∧ ((step cfg (after cfg store0 sched) s act).1.sess s).pend = []
+    ∧ (step cfg (after cfg store0 sched) s act).1.lock ≠ some s := by
+  have hinv := C20_invariant cfg store0 sched
+  have hinv' := Inv_step cfg _ s act hinv
+  have hfr := step_failed cfg _ s act hfail
+  refine ⟨?_, hfr, by rw [hfr]; rfl, ?_⟩
+  · rcases step_store cfg (after cfg store0 sched) s act with h | h
+    · exact h
+    · rw [h.2.2.1] at hfail; simp [Res.failed] at hfail
+  · intro hl
+    have := (hinv'.2 s).mpr hl
+    rw [hfr] at this
+    simp [Sess.fresh] at this
+
+/-- committed rows change only in the COMMIT step of a session in a transaction whose flush completed without
+    error, and become exactly what that session's connection saw (its applied UPDATEs over the previous rows) -/
+theorem C20_only_commit_changes_rows (cfg : Cfg) (σ : State) (s : Sid) (act : Action) :
+    (step cfg σ s act).1.store = σ.store ∨
+    ((σ.sess s).toSave = [] ∧ (σ.sess s).inTxn = true ∧ (step cfg σ s act).2.res = .ok none ∧
+      (step cfg σ s act).1.store = fun o a => view σ s o a) :=
+  step_store cfg σ s act
+
+/-- SQLite serialises writers: at most one session is inside a transaction, and it is the lock holder -/
+theorem C20_single_writer (cfg : Cfg) (store0 : Obj → Attr → Val) (sched : List (Sid × Action)) (s t : Sid)
+    (hs : ((after cfg store0 sched).sess s).inTxn = true) (ht : ((after cfg store0 sched).sess t).inTxn = true) : s = t := by
+  have hinv := C20_invariant cfg store0 sched
+  have h1 := (hinv.2 s).mp hs
+  have h2 := (hinv.2 t).mp ht
+  rw [h1] at h2
+  exact Option.some.inj h2
+
+/-- uncommitted writes exist only inside a transaction -/
+theorem C20_pending_only_in_txn (cfg : Cfg) (store0 : Obj → Attr → Val) (sched : List (Sid × Action)) (s : Sid)
+    (hs : ((after cfg store0 sched).sess s).inTxn = false) : ((after cfg store0 sched).sess s).pend = [] :=
+  ((C20_invariant cfg store0 sched).1 s).2.1 hs
+
+/-- **C20_no_lost_update.** If the value an optimistic session `s` holds for `(o, a)` — what it read before writing, or
+    what it last wrote — is no longer what its connection sees (another session committed a different value since),
+    then the flush of `o` (by `flush()`, `commit()`, leaving the session, or the auto-flush before a query) applies
+    nothing: it waits for the write lock or raises OptimisticCheckError, and the committed rows stay as they are. -/
+theorem C20_no_lost_update (cfg : Cfg) (store0 : Obj → Attr → Val) (sched : List (Sid × Action)) (s : Sid) (o : Obj)
+    (rest : List Obj) (a : Attr) (v : Val) (act : Action) (hact : act = .flush ∨ act = .commit ∨ act = .close)
+    (hopt : cfg.sessOpt s = true) (hts : ((after cfg store0 sched).sess s).toSave = o :: rest)
+    (hfu : ((after cfg store0 sched).sess s).forUpd o = false) (ha : a ∈ cfg.attrs) (hao : cfg.attrOpt a = true)
+    (hobs : (((after cfg store0 sched).sess s).objs o).obs a = some v)
+    (hne : view (after cfg store0 sched) s o a ≠ v)
+    (hw : wAttrs cfg (((after cfg store0 sched).sess s).objs o) ≠ []) :
+    ((step cfg (after cfg store0 sched) s act).2.res = .blocked ∨ (step cfg (after cfg store0 sched) s act).2.res = .optimisticCheckError)
+    ∧ (step cfg (after cfg store0 sched) s act).2.upd = none
+    ∧ (step cfg (after cfg store0 sched) s act).1.store = (after cfg store0 sched).store := by
+  have hinv := C20_invariant cfg store0 sched
+  have hO := ((hinv.1 s).1 o a).2.2.2.1 v hobs
+  have key := fun done => saveHead_refused cfg (after cfg store0 sched) s o rest done a v hinv hopt hfu ha hao hO.2.1 hO.2.2 hne hw
+  have hst := fun done => saveHead_store cfg (after cfg store0 sched) s o rest done
+  rcases hact with rfl | rfl | rfl <;> simp only [step, hts] <;> exact ⟨(key _).1, (key _).2, hst _⟩
+
+/-- … in particular when the committed value differs and `s` has not yet written `(o, a)` in its open transaction -/
+theorem C20_no_lost_update_committed (cfg : Cfg) (store0 : Obj → Attr → Val) (sched : List (Sid × Action)) (s : Sid) (o : Obj)
+    (rest : List Obj) (a : Attr) (v : Val) (act : Action) (hact : act = .flush ∨ act = .commit ∨ act = .close)
+    (hopt : cfg.sessOpt s = true) (hts : ((after cfg store0 sched).sess s).toSave = o :: rest)
+    (hfu : ((after cfg store0 sched).sess s).forUpd o = false) (ha : a ∈ cfg.attrs) (hao : cfg.attrOpt a = true)
+    (hobs : (((after cfg store0 sched).sess s).objs o).obs a = some v)
+    (hpend : lookupPend ((after cfg store0 sched).sess s).pend o a = none)
+    (hne : (after cfg store0 sched).store o a ≠ v)
+    (hw : wAttrs cfg (((after cfg store0 sched).sess s).objs o) ≠ []) :
+    (step cfg (after cfg store0 sched) s act).2.upd = none
+    ∧ (step cfg (after cfg store0 sched) s act).1.store = (after cfg store0 sched).store :=
+  (C20_no_lost_update cfg store0 sched s o rest a v act hact hopt hts hfu ha hao hobs (by simpa [view, hpend] using hne) hw).2
+
+/-- `obj._dbvals_[attr]` in `_construct_optimistic_criteria_` and `obj._vals_[attr]` in `_save_updated_` never raise KeyError -/
+theorem C20_flush_no_keyError (cfg : Cfg) (store0 : Obj → Attr → Val) (sched : List (Sid × Action)) (s : Sid) (act : Action)
+    (hact : act = .flush ∨ act = .commit ∨ act = .close) :
+    (step cfg (after cfg store0 sched) s act).2.res ≠ .keyError := by
+  have hinv := C20_invariant cfg store0 sched
+  rcases hact with rfl | rfl | rfl <;> simp only [step]
+  · split
+    · simp [okOut]
+    · apply saveHead_no_keyError cfg _ s _ _ _ hinv; split <;> simp
+  · split
+    · exact saveHead_no_keyError cfg _ s _ _ _ hinv (by simp)
+    · split <;> simp [okOut]
+  · split
+    · exact saveHead_no_keyError cfg _ s _ _ _ hinv (by simp)
+    · simp [okOut]
+
+/-- programs of whole operations driven by thread picks (what the differential test executes) are schedules:
+    every state they reach is a state after some statement-granularity schedule -/
+theorem C20_picks_are_schedules (cfg : Cfg) (progs : Sid → List Action) (store0 : Obj → Attr → Val) (picks : List Sid) :
+    ∀ r : Runner, (∃ sched, r.st = after cfg store0 sched) →
+      ∃ sched, (picks.foldl (fun r s => (pick cfg progs r s).1) r).st = after cfg store0 sched := by
+  induction picks with
+  | nil => intro r h; exact h
+  | cons s rest ih =>
+    intro r ⟨sched, hs⟩
+    apply ih
+    unfold pick
+    split
+    · exact ⟨sched, hs⟩
+    · rename_i act _
+      refine ⟨sched ++ [(s, act)], ?_⟩
+      simp only [after] at hs ⊢
+      have hrun : ∀ (l : List (Sid × Action)) (σ : State), run cfg σ (l ++ [(s, act)]) = (step cfg (run cfg σ l) s act).1 := by
+        intro l
+        induction l with
+        | nil => intro σ; rfl
+        | cons e l ihl => intro σ; obtain ⟨s', a'⟩ := e; simp only [List.cons_append, run]; exact ihl _
+      rw [hrun, ← hs]
 
 end PonyVerif.Props.C20
